@@ -17,12 +17,12 @@ def run(run):
     account_mc(run, res, ["Log", "Nice", "Clear", "Dump", "Read"])
     exe = build_driver(run, "mlog_drv", "mlog_drv.c", ["librfn/mlog.c", "librfn/string.c", "librfn/util.c"])
     full = 1 if run.thorough() else 0
-    sc = "Sys 773 %d\nFold %d\nNiceFar\nKinds\nNestedNice\nRandom %d %d\nRandom %d %d\n" % (full, full, run.seed, 20000 if full else 4000, run.seed + 1, 20000 if full else 3000)
+    sc = "Sys 773 %d\nFold %d\nNiceFar\nKinds\nShape\nNestedNice\nRandom %d %d\nRandom %d %d\n" % (full, full, run.seed, 20000 if full else 4000, run.seed + 1, 20000 if full else 3000)
     # more than 2^31 messages that nobody reads: a second, uninstrumented -O2 build of the same driver (2^31 calls under ASan
     # take a minute and more), its trace validated against the same specification
     fast = build_driver(run, "mlog_drv_fast", "mlog_drv.c", ["librfn/mlog.c", "librfn/string.c", "librfn/util.c"],
                         cc=["gcc", "-std=gnu11", "-O2", "-g", "-DLIBRFN_VERIF"])
-    tru = exec_script(run, fast, [], "Unread 0\n" + ("Unread 1\n" if full else "") + "Sweep %d\n" % (4400 if full else 270), run.path("unread.ndjson"), "unread", timeout=900)
+    tru = exec_script(run, fast, [], "Shape\nUnread 0\n" + ("Unread 1\n" if full else "") + "Sweep %d\n" % (4400 if full else 270), run.path("unread.ndjson"), "unread", timeout=900)
     check_trace(run, "unread", "TraceMlog", "TraceMlog.cfg", tru, timeout=900)
     tr = exec_script(run, exe, [], sc, run.path("mlog.ndjson"), "histories", timeout=600)
     check_trace(run, "histories", "TraceMlog", "TraceMlog.cfg", tr, timeout=1500)
